@@ -161,8 +161,8 @@ PROPS = {
                  "one of the largest legal lengths (65,512-65,532 attribute bytes); buffer sizes len-1, len, len+1, 20, "
                  "smaller, larger, the buffer being a Vec of exactly that length with 0/1/3/16/4096 bytes of spare "
                  "capacity behind it and zero or non-zero old contents. A position-tracking model states for every call what must come back: Decoded exactly when the "
-                 "chunk completes the packet with consumed = bytes needed, packet bytes identical, MoreBytesNeeded(None) "
-                 "before 20 bytes were seen and Some(exact remainder) afterwards, InvalidStunPacket / SmallBuffer at the "
+                 "chunk completes the packet with consumed = bytes needed, packet bytes identical, MoreBytesNeeded with "
+                 "Some(exact remainder) once 20 bytes were seen (what is reported before that is left open), InvalidStunPacket / SmallBuffer at the "
                  "chunk that completes the header with consumed = header bytes taken and the buffer handed back; the final "
                  "outcome must not depend on the chunking. Distinct = hash of the stream bytes."),
         "assumptions": [],
